@@ -844,6 +844,13 @@ regp_recv(RegP *p, RPMaybeFrame *mf)
     } break;
     }
 
+    if (cs.error.id == 0 && cs.buffer.data == NULL) {
+        /* Nothing reached the sink: an empty frame, which is shorter than
+         * any header. There is no block and no frame to hand out. */
+        mf->error.id = EBADMSG;
+        return regp_resp_meta(p, RP_META_EHEADERENC);
+    }
+
     if (cs.error.id != 0) {
         mf->error.id = cs.error.id;
         mf->error.framesize = cs.error.datacount;
